@@ -214,6 +214,56 @@ func H05_concurrent() {
 	e.s.Fini()
 }
 
+// H05_resize: a window-size change (notified by the tty, or noticed by Sync) while the
+// event queue holds 0..10 undelivered events never costs an event that was already
+// accepted: every posted event is still delivered exactly once and in order (the resize
+// event itself may be coalesced or dropped when there is no room).
+func H05_resize() {
+	e := h01New("xterm-256color", 3, 1, false)
+	for e.s.HasPendingEvent() {
+		e.s.PollEvent()
+	}
+	n := []int{0, 5, 9, 10}[vsymChoice("fill", 4)]
+	h05Fill(e, n)
+	e.tty.w, e.tty.h = 4, 2
+	e.tty.vt.resizeTo(4, 2)
+	if vsymChoice("how", 2) == 0 {
+		if e.tty.cb != nil {
+			e.tty.cb()
+		}
+		vsymRunBlocked()
+	} else {
+		e.s.Sync()
+	}
+	seen, resizes := 0, 0
+	for i := 0; i < n+2; i++ {
+		if !e.s.HasPendingEvent() {
+			vsymRunBlocked()
+		}
+		if !e.s.HasPendingEvent() {
+			break
+		}
+		switch ev := e.s.PollEvent().(type) {
+		case *h05Ev:
+			vsymAssert(ev.id == 1000+seen, "events accepted before the resize are delivered in order, none discarded")
+			seen++
+		case *EventResize:
+			resizes++
+		default:
+			vsymAssert(false, "only the posted events and resize events are delivered")
+		}
+		vsymRunBlocked()
+	}
+	vsymAssert(seen == n, "every event accepted before the resize is delivered exactly once")
+	vsymAssert(resizes <= 1, "at most one resize event per size change")
+	if n < 10 {
+		vsymAssert(resizes == 1, "with room in the queue the resize event is delivered")
+	}
+	w, h := e.s.Size()
+	vsymAssert(w == 4 && h == 2, "the screen has the new size")
+	e.s.Fini()
+}
+
 // H05_chan: ChannelEvents forwards in order and closes its channel on quit and on Fini.
 func H05_chan() {
 	e := h01New("xterm-256color", 3, 1, false)
